@@ -47,7 +47,7 @@ def run(ctx, rep):
     rep.rule("R15-CONST", "constant keyword / literal syntax printed = grammar constant_* / typed_constant; no printer arm panics", floor=11)
     rep.rule("R15-TERM", "term keywords and brackets printed by Term::to_doc = grammar rule term", floor=10)
     rep.rule("R15-DATA", "Data constructor keywords printed = grammar rule data", floor=5)
-    rep.rule("R15-ESC", "escape forms the printer can emit are accepted by grammar rule character, on the same unit (byte vs char)", floor=2)
+    rep.rule("R15-ESC", "escape forms the printer can emit are accepted by grammar rule character, on the same unit (byte vs char); a char is narrowed to u8 only under a guard that implies is_ascii()", floor=5)
     rep.rule("R15-TOTAL", "grammar actions contain no unwrap/expect/panic: fallible steps use the {? } form", floor=20)
 
     rep.guarded("R15-BUILTIN", lambda: r_builtin(sh, rep))
@@ -63,6 +63,12 @@ def run(ctx, rep):
     rep.guarded("R15-TERM", lambda: r_term(sh, rep, gram))
     rep.guarded("R15-DATA", lambda: r_data(sh, rep, gram))
     rep.guarded("R15-ESC", lambda: r_esc(sh, rep, gram))
+    rep.guarded("R15-ESC", lambda: r_esc_cast(sh, rep))
+    rep.rule("R15-WS", "every closing bracket of the grammar is preceded by optional white space, matching the printer's soft line breaks", floor=20)
+    rep.guarded("R15-WS", lambda: r_ws(sh, rep, gram))
+    rep.rule("R15-TAGSITE", "Data constructor indices are printed through convert_tag_to_constr: no private copy of the tag ranges outside the functions R04-TAGS evaluates", floor=3)
+    from . import c04
+    rep.guarded("R15-TAGSITE", lambda: c04.r_tagsites(sh, rep, "R15-TAGSITE"))
     rep.guarded("R15-TOTAL", lambda: r_total(sh, rep, gram))
 
 
@@ -470,3 +476,90 @@ def r_total(sh, rep, gram):
                     rep.ok("R15-TOTAL", k, where, why="reviewed: " + TOTAL_REVIEW[k])
                 else:
                     rep.bad("R15-TOTAL", k, where, "action of grammar rule %s contains %s: malformed input reaches a panic instead of a parse error (use the fallible {? } form)" % (name, b))
+
+
+# ---------------------------------------------------------------------------------------------------------
+# R15-ESC (cast guard): a char is narrowed to u8 for escaping only when the guard implies it is ASCII
+# ---------------------------------------------------------------------------------------------------------
+def _implies_ascii(cond, var):
+    k = cond["k"]
+    if k == "MethodCall" and cond["m"] == "is_ascii" and cond["recv"]["k"] == "Path" and cond["recv"]["p"] == var:
+        return True
+    if k == "Binary" and cond["op"] == "&&":
+        return _implies_ascii(cond["l"], var) or _implies_ascii(cond["r"], var)
+    if k == "Binary" and cond["op"] == "||":
+        return _implies_ascii(cond["l"], var) and _implies_ascii(cond["r"], var)
+    if k == "Binary" and cond["op"] in ("<", "<=") and cond["l"]["k"] == "Path" and cond["l"]["p"] == var:
+        return True  # explicit code-point bound
+    return False
+
+
+def r_esc_cast(sh, rep):
+    fp = sh.file(P)
+    n_casts = 0
+    for q, f in all_fns(fp):
+        if "escape" not in q.split("::")[-1]:
+            continue
+        rep.touched(P, q)
+
+        def rec(node, guards):
+            nonlocal n_casts
+            if isinstance(node, list):
+                for x in node:
+                    rec(x, guards)
+                return
+            if not isinstance(node, dict):
+                return
+            if node.get("k") == "If":
+                rec(node["cond"], guards)
+                rec(node["then"], guards + [node["cond"]])
+                if "else" in node:
+                    rec(node["else"], guards)
+                return
+            if node.get("k") == "Cast" and node["ty"].replace(" ", "") == "u8" and node["e"]["k"] == "Path":
+                var = node["e"]["p"]
+                n_casts += 1
+                ok = any(_implies_ascii(g, var) for g in guards)
+                rep.check(ok, "R15-ESC", "%s#cast-%s-as-u8#guard" % (q, var), sh.loc(P, node), "`%s as u8` truncates every character above U+00FF; it is reached under %s, which does not imply `%s.is_ascii()`: such characters are printed as the escape of a different byte and parse back as another string" % (var, [sh.nsrc(P, g)[:60] for g in guards] or "no guard", var), sample={"guards": [sh.nsrc(P, g)[:60] for g in guards]})
+            for v in node.values():
+                if isinstance(v, (dict, list)):
+                    rec(v, guards)
+
+        rec(f["body"], [])
+    return n_casts
+
+
+# ---------------------------------------------------------------------------------------------------------
+# R15-WS: wherever the printer may break a line, the grammar tolerates white space
+# ---------------------------------------------------------------------------------------------------------
+def r_ws(sh, rep, gram):
+    """The printer separates tokens with `line()` / `line_()` / `softline` that become newlines once a group exceeds the page
+    width, in particular right before closing brackets and right after opening ones. The grammar side of that contract:
+    every closing bracket literal is preceded by optional white space `_*` (or by a repetition whose body ends in `_*`).
+    Today all 20 sites comply; a site that does not rejects the printer's own output only for wide terms."""
+
+    def flat(toks):
+        for t in toks:
+            if t["t"] == "g" and t["d"] == "(":
+                yield {"t": "open"}
+                yield from flat(t["c"])
+                yield {"t": "close"}
+            elif t["t"] == "g":
+                yield {"t": "grp", "d": t["d"]}
+            else:
+                yield t
+
+    n = 0
+    for name, r in sorted(gram.items()):
+        for alt in r.alts:
+            ts = list(flat(alt.toks))
+            for i, t in enumerate(ts):
+                if t["t"] == "l" and t.get("v") in ('")"', '"]"'):
+                    j = i - 1
+                    # skip repetition marks, group ends and action blocks to reach the last matched element
+                    while j >= 0 and (ts[j]["t"] in ("close", "grp") or (ts[j]["t"] == "p" and ts[j].get("v") in ("+", "*", "?") and j > 0 and ts[j - 1]["t"] in ("close",))):
+                        j -= 1
+                    ok = j >= 1 and ts[j]["t"] == "p" and ts[j].get("v") in ("*", "+") and ts[j - 1].get("v") == "_"
+                    n += 1
+                    rep.check(ok, "R15-WS", "%s#%d#before%s" % (name, sum(1 for x in ts[:i] if x["t"] == "l" and x.get("v") == t["v"]), t["v"].strip('"')), "%s:%d" % (G, alt.line), "grammar rule %s does not allow white space before %s: the printer puts a soft line break there, so output wider than the page is rejected by the parser" % (name, t["v"]), sample={"rule": name})
+    return n
